@@ -551,11 +551,12 @@ impl World {
                 s.snap.extend_from_slice(&[0x5Au8; 200]);
                 m.truncate(s.snap.len() - 100);
                 s.snap.truncate(s.snap.len() - 100);
-                if was.is_some() {
+                if let Some((was_lo, _)) = was {
                     // MutableBuffer re-sizes its reservation to the capacity on reallocation and to the
                     // *length* on truncate/resize/clear (asserted by arrow-buffer's own pool tests), so
                     // while a region is mutable its accounted size is only known to lie in [len, capacity]
-                    self.claimed.insert(s.alloc, (m.len(), m.capacity()));
+                    // (a lower bound of 0 means the claim may already be gone, see UnaryMut / IntoBuilder)
+                    self.claimed.insert(s.alloc, (if was_lo == 0 { 0 } else { m.len() }, m.capacity()));
                 }
             }
             Op::Freeze(_) => {
